@@ -2,7 +2,25 @@ import os, sys
 sys.path.insert(0, os.path.dirname(os.path.dirname(os.path.abspath(__file__))))
 from engine.extract import R
 
+ABC = r"bool Chainstate::ActivateBestChain\(BlockValidationState& state, std::shared_ptr<const CBlock> pblock\)"
 SLICES = [
+    # the inner do-while of ActivateBestChain, up to and including the early return
+    {"name": "activate_round", "cname": "ActivateBestChain_round", "kind": "frag", "file": "src/validation.cpp", "within": ABC,
+     "begin": r"bool blocks_connected = false;", "end": r"if \(!blocks_connected\) return true;", "include_end": True,
+     "prologue": "int ActivateBestChain_round(const CBlockIndex* pindexMostWork, const CBlockIndex* starting_tip)\n{\n    const CBlockIndex* pindexNewTip = NULL;",
+     "epilogue": "    g_final_most_work = pindexMostWork;\n    return 2; /* goes on to notify and to the outer loop `while (pindexNewTip != pindexMostWork)` */\n}",
+     "rules": [R("drop:connected_blocks vector", r"std::vector<ConnectedBlock> connected_blocks;", "", False),
+               R("stub:FindMostWorkChain()", r"(?<![\w.>])FindMostWorkChain\(\)", "FindMostWorkChain_stub()", False),
+               R("ghost:m_chain.Tip()", r"m_chain\.Tip\(\)", "g_tip", False),
+               R("drop:nullBlockPtr", r"std::shared_ptr<const CBlock> nullBlockPtr;", "", False),
+               R("drop:chainstate_role (signals only)", r"const ChainstateRole chainstate_role\{this->GetRole\(\)\};", "", False),
+               R("stub:ActivateBestChainStep(state, *pindexMostWork, block, fInvalidFound, connected_blocks)", r"ActivateBestChainStep\(state, \*pindexMostWork, pblock && pblock->GetHash\(\) == pindexMostWork->GetBlockHash\(\) \? pblock : nullBlockPtr, fInvalidFound, connected_blocks\)", "ActivateBestChainStep_stub(pindexMostWork, &fInvalidFound)", False),
+               R("return false (system error) -> 0", r"return 0;", "return 0;", False),
+               R("drop:BlockConnected signal loop", r"for \(auto& \[index, block\] : std::move\(connected_blocks\)\) \{\s*if \(m_chainman\.m_options\.signals\) \{[^}]*\}\s*\}", "", False),
+               R("stub:ReachedTarget()", r"(?<![\w.>])ReachedTarget\(\)", "ReachedTarget_stub()", False),
+               R("stub:CBlockIndexWorkComparator()(tip, starting_tip) (its own contract is h_WorkComparator)", r"CBlockIndexWorkComparator\(\)\(", "WorkComparator_stub(", False),
+               R("loop contract attached to the do-while", r"\bdo \{", "do LOOP_ROUND {", False),
+               R("early return -> 1", r"if \(!blocks_connected\) return 1;", "if (!blocks_connected) return 1;", False)]},
     {"name": "CBlockIndexWorkComparator", "kind": "func", "file": "src/node/blockstorage.cpp", "head": r"bool CBlockIndexWorkComparator::operator\(\)\(const CBlockIndex\* pa, const CBlockIndex\* pb\)",
      "rules": [R("method-head:CBlockIndexWorkComparator::operator()", r"bool CBlockIndexWorkComparator::operator\(\)\(const CBlockIndex\* pa, const CBlockIndex\* pb\) const", "bool CBlockIndexWorkComparator(const CBlockIndex* pa, const CBlockIndex* pb)"),
                R("pointer order as integer order (addresses of distinct objects)", r"if \(pa (<|>) pb\)", r"if ((uintptr_t)pa \1 (uintptr_t)pb)", False)]},
@@ -10,20 +28,21 @@ SLICES = [
 PLAN = {
     "id": "C08", "level": "proof", "slices": SLICES, "spec": "spec.c", "default_solver": ["cadical", "z3"],
     "harnesses": [
+        {"name": "h_activate_round", "enforce": "ActivateBestChain_round", "loop_contracts": True, "twins": [{"define": "TWIN_ROUND", "expect": "postcondition"}]},
         {"name": "h_WorkComparator", "enforce": "CBlockIndexWorkComparator", "twins": [{"define": "TWIN_SEQ", "expect": "postcondition"}]},
         {"name": "h_lemma_work_order", "replace": ["CBlockIndexWorkComparator"], "twins": [{"define": "TWIN_ORDER", "expect": "assertion"}]},
     ],
     "native": {"src": "replay.cpp", "c_src": "native_slices.c", "c_lang": "c++", "repo_sources": ["src/node/blockstorage.cpp"] if False else [], "diff_n_quick": 100000, "diff_n_thorough": 3000000,
                "libs": ["libbitcoin_common.a", "libbitcoin_consensus.a", "libbitcoin_util.a", "libbitcoin_clientversion.a", "libbitcoin_crypto.a"]},
-    "not_covered": ["the bulk of the statement: FindMostWorkChain, ActivateBestChainStep, InvalidChainFound / SetBlockFailureFlags, InvalidateBlock / ResetBlockFailureFlags, CheckBlockIndex and every delivery / invalidate / reconsider history -- "
+    "not_covered": ["the bulk of the statement: FindMostWorkChain, ActivateBestChainStep (stubs in the round fragment), the outer loop of ActivateBestChain, InvalidChainFound / SetBlockFailureFlags, InvalidateBlock / ResetBlockFailureFlags, CheckBlockIndex and every delivery / invalidate / reconsider history -- "
                     "std::set<CBlockIndex*, Comparator> manipulation and multi-step chain state outside the extractor's subset; only the order that ranks tip candidates is under contract"],
     "assumptions": ["pointer tie-break compared as integer addresses"],
     "manifest": {
         "category": "proof",
-        "text": "partial (comparator only): CBlockIndexWorkComparator, the order of the set of tip candidates, is proved to rank strictly by total chain work (256-bit), then by LOWER sequence id (earlier received) as greater, then by lower address as greater; it is a strict weak order and total on distinct entries, "
+        "text": "partial (comparator + one control-flow fact): one round of ActivateBestChain (its inner do-while, cut from validation.cpp) returns early as 'nothing to do' only if no activation step ran in that round -- i.e. only when FindMostWorkChain offered nothing better than the tip -- so a round that hit an invalid block always goes on to the outer loop, which asks FindMostWorkChain again; CBlockIndexWorkComparator, the order of the set of tip candidates, is proved to rank strictly by total chain work (256-bit), then by LOWER sequence id (earlier received) as greater, then by lower address as greater; it is a strict weak order and total on distinct entries, "
                 "so the maximum of the candidate set is a most-work block (three-element lemma over the contract).",
-        "note": "Not covered (almost all of the statement): candidate-set maintenance, failure flags, activation steps, invalidate/reconsider histories. A change there is NOT detected by this check.",
-        "technique": "CBMC function contract on the extracted comparator (u256 chain work) + contract-only order lemma",
+        "note": "Not covered (most of the statement): candidate-set maintenance, failure flags, the activation step itself, invalidate/reconsider histories. A change there is NOT detected by this check.",
+        "technique": "CBMC function contract on the extracted comparator (u256 chain work) + contract-only order lemma + loop contract on an anchor-delimited fragment of ActivateBestChain with ghost-recording stubs",
     },
     "trusted_base": ["specs/C08/spec.c", "include/verif_chain.h"],
 }
